@@ -4,6 +4,9 @@
 package main
 
 import (
+	"crypto/rand"
+	"crypto/cipher"
+	"crypto/aes"
 	"bufio"
 	"encoding/base64"
 	"encoding/json"
@@ -388,6 +391,53 @@ func TestVerifSession(t *testing.T) {
 	}
 	if st, _, _, _ := short.Check(tok2); st == http.StatusOK {
 		sViolate("expiry:expired-accepted-first-presentation", "token accepted 5.6 s after issue with a 4 s lifetime", nil)
+	}
+	// several instances created at the same moment (one per web listener at start-up): no instance accepts another one's
+	// tokens, and none accepts a token sealed under the all-zero key (which everybody knows)
+	zeroKey := func(user string) string {
+		block, _ := aes.NewCipher(make([]byte, 16))
+		gcm, _ := cipher.NewGCM(block)
+		n := make([]byte, gcm.NonceSize())
+		rand.Read(n)
+		return enc(n, gcm.Seal(nil, n, []byte(fmt.Sprintf("%s:true:%d", user, time.Now().Unix())), nil))
+	}
+	forged := zeroKey("root")
+	for round := 0; round < 3000 && len(sViol) < 50; round++ {
+		fs := make([]*webSessionFactory, 4)
+		var cwg sync.WaitGroup
+		startGate := make(chan struct{})
+		for i := range fs {
+			cwg.Add(1)
+			go func(i int) {
+				defer cwg.Done()
+				<-startGate
+				fs[i], _ = NewWebSessionFactory(sLifetime)
+			}(i)
+		}
+		close(startGate)
+		cwg.Wait()
+		toks := make([]string, len(fs))
+		for i, f := range fs {
+			if f != nil {
+				_, _, toks[i] = f.Generate("alice", true)
+			}
+		}
+		for i, f := range fs {
+			if f == nil {
+				continue
+			}
+			sChecks++
+			if st, _, _, _ := f.Check(forged); st == http.StatusOK {
+				sViolate("concurrent-start:zero-key-token-accepted", "an instance created concurrently with others accepts a token sealed under the all-zero key", nil)
+			}
+			for j := range fs {
+				if j != i && toks[j] != "" {
+					if st, _, _, _ := f.Check(toks[j]); st == http.StatusOK {
+						sViolate("concurrent-start:other-instance-accepts", "two instances created at the same time accept each other's tokens", nil)
+					}
+				}
+			}
+		}
 	}
 	var vs []sViolation
 	for _, v := range sViol {
